@@ -347,13 +347,14 @@ theorem second_machine_of_history {P : Params κ} (hG : Good P) (hfx : P.fx.gate
         (∀ e ∈ post, WritesOnly .target (cd.encK (P.K (keyState t (build P cfg wA order).fs ohs))) b e) ∧
         cd.decR b.content = some r ∧ b.refs = r.outs.map (fun ov => cd.dig ov.2))
     (mB : Remote.Mid) (hempty : ∀ ns k, sR.loc mB ns k = none)
+    (hnt : ∀ l ∈ order, Remote.viewTaint sR mB l = false)
     (fsB : FS) (hsrc : ∀ p, (∀ l ∈ order, ∀ t, defs l = some t → p ∉ outPaths t) → fsB p = wA.fs p) :
-    executed (build P cfg ⟨defs, fsB, viewCache cd.toCodec (fun _ => false) sR mB⟩ order) = [] ∧
-    succeeded (build P cfg ⟨defs, fsB, viewCache cd.toCodec (fun _ => false) sR mB⟩ order) order = true ∧
+    executed (build P cfg ⟨defs, fsB, viewCache cd.toCodec (Remote.viewTaint sR mB) sR mB⟩ order) = [] ∧
+    succeeded (build P cfg ⟨defs, fsB, viewCache cd.toCodec (Remote.viewTaint sR mB) sR mB⟩ order) order = true ∧
     ∀ l ∈ order, ∀ t, defs l = some t → ∀ p ∈ outPaths t,
-      (build P cfg ⟨defs, fsB, viewCache cd.toCodec (fun _ => false) sR mB⟩ order).fs p = (build P cfg wA order).fs p :=
+      (build P cfg ⟨defs, fsB, viewCache cd.toCodec (Remote.viewTaint sR mB) sR mB⟩ order).fs p = (build P cfg wA order).fs p :=
   second_machine hG cd.toCodec hdig cfg defs order hwf hpl wA hdA hsA hokA es sR hrun
     (rwrites_of_history hG hfx cd hl pid h w0 hok (by rw [hw0]; exact C01.cacheSound_empty P) es hfrom)
-    hup mB hempty fsB hsrc
+    hup mB hempty hnt fsB hsrc
 
 end Grog.Compose
